@@ -88,6 +88,24 @@ def gen_case(rng, n_ops=25, crash=False, torn=False, fsync="always", invalid=Tru
             ops.append(op)
         if rng.random() < 0.25:
             ops.append("disk")
+    if rng.random() < 0.2:
+        # motif: a batch delete of several LIVE ids, a re-insert of one of them (not the first) inside the next few
+        # operations, a snapshot while the batch's sequence numbers are the newest, a restart (sequence-range bookkeeping of
+        # multi-frame operations vs snapshot coverage; found missing from the random stream by seeded change C02-3)
+        pool = rng.sample(ids, min(len(ids), rng.choice([2, 3]))) if len(ids) >= 2 else ids
+        if len(pool) >= 2:
+            m = []
+            for i in pool:
+                m.append("insert id=%d v=%s m=%s" % (i, vbits(rand_vec(rng, dim)), show_meta(rand_meta(rng))))
+            m.append("batch_delete ids=%s" % show_vec(pool))
+            back = rng.choice(pool[1:])
+            m.append("insert id=%d v=%s m=%s" % (back, vbits(rand_vec(rng, dim)), show_meta(rand_meta(rng))))
+            if rng.random() < 0.3 and len(pool) > 2:
+                m.append("insert id=%d v=%s m=%s" % (pool[-1], vbits(rand_vec(rng, dim)), show_meta(rand_meta(rng))))
+            if rng.random() < 0.8:
+                m.append("snapshot")
+            m += ["restart", "census"]
+            ops += m
     ops += ["census", "disk", "restart", "census"]
     return ops
 
